@@ -109,6 +109,7 @@ type Gen struct {
 	curPos  token.Pos
 	curBlk  *ssa.BasicBlock
 	siteHit map[*SiteAssert]bool
+	ghostLets map[string]Val
 	curIn   ssa.Instruction
 	loopOf  map[*ssa.BasicBlock]int // loop head -> ordinal
 	heads   []*ssa.BasicBlock
